@@ -18,6 +18,7 @@ import sys
 import types
 
 from sim import core, progs, repo, world
+from sim.faults import FAULTS, TARGETS, EXC
 from sim.core import OK, VIOLATION, DISCARD, sub_rng
 
 STEP_BUDGET = 25_000
@@ -52,12 +53,13 @@ class C12(core.Check):
         "quick": dict(runs=16_000, batch=200, wall=80),
         "thorough": dict(runs=400_000, batch=500, wall=840),
     }
+    per_run_timeout = 60
     components_real = ["vyxal/lexer.py", "vyxal/parse.py", "vyxal/transpile.py (every template)", "vyxal/elements.py",
                        "vyxal/helpers.py", "vyxal/LazyList.py (output, __next__)", "vyxal/context.py",
                        "vyxal/main.py execute_vyxal (driver B)"]
     components_stub = ["stdin (always EOF)", "secrets.token_hex (counter)", "random (seeded)", "datetime (simulated)"]
     fault_kinds = ["close_lazy (abandon a half-consumed lazy value)", "force_lazy (deferred lambda bodies run at a "
-                   "scheduler-chosen point)"]
+                   "scheduler-chosen point)", "element_failure (a seeded element function raises a seeded exception at its k-th call)"]
     assumptions = [
         "a run in which a statement raises, exits or exceeds the step budget did not finish normally and is discarded",
         "driver B's expected depths are those execute_vyxal itself establishes before exec: (1, 1, 2, 0)",
@@ -71,6 +73,7 @@ class C12(core.Check):
     def setup(self):
         self.m = world.install_seams()
         world.CLOCK.install()
+        FAULTS.install(self.m)
 
     # ------------------------------------------------------------------ generation
     def gen(self, seed, run, tier):
@@ -95,13 +98,30 @@ class C12(core.Check):
                 sched.append([rs.randint(0, 12), rs.choice(["force", "force", "force", "close"]), rs.randint(0, 7),
                               rs.randint(1, 4)])
             sched.sort(key=lambda e: e[0])
-        return dict(nodes=nodes, inputs=inputs, driver=driver, sched=sched, final_output=rw.random() < 0.8)
+        case = dict(nodes=nodes, inputs=inputs, driver=driver, sched=sched, final_output=rw.random() < 0.8)
+        rf = sub_rng(seed, self.id, run, "faults")
+        if rf.random() < 0.3:
+            # element failure at the k-th call of a seeded element function: the program either aborts (not judged) or
+            # something swallows the error -- then it "finishes normally" and must be balanced
+            case["fault"] = dict(target=("*" if rf.random() < 0.75 else rf.choice(TARGETS)), at=rf.choice([1, 1, 2, 2, 3, 4, 5, 6, 8]),
+                                 exc=rf.choice(["StopIteration", "StopIteration", "TypeError", "ValueError", "IndexError",
+                                                "ZeroDivisionError", "RuntimeError"]))
+        return case
 
     # ------------------------------------------------------------------ execution
     def run(self, case):
-        if case.get("driver") == "main":
-            return self.run_main(case)
-        return self.run_world(case)
+        try:
+            if case.get("driver") == "main":
+                out = self.run_main(case)
+            else:
+                out = self.run_world(case)
+        finally:
+            fired = FAULTS.fired
+            FAULTS.disarm()
+        if fired:
+            out.setdefault("faults", {})
+            out["faults"]["element_failure"] = out["faults"].get("element_failure", 0) + fired
+        return out
 
     def hist(self, case, text):
         return core.digest([text, case.get("sched"), case.get("driver"), case.get("inputs")])
@@ -125,11 +145,21 @@ class C12(core.Check):
         printed_lazy = [False]
         swallowed = [0]
         swallowed_by = [None]
+        via = [None]
+        fault = case.get("fault")
+        if fault:
+            FAULTS.arm(fault["target"], fault["at"], fault["exc"])
+        else:
+            FAULTS.disarm()
 
         def check(where, what):
             d = w.depths()
             same_top = w.ctx.context_values and (w.ctx.context_values[-1] is top or w.ctx.context_values[-1] == top
                                                  and type(w.ctx.context_values[-1]) is type(top))
+            if (d != base or not same_top) and swallowed[0] and swallowed_by[0] == "outside-vyxal":
+                # the exception left vyxal code altogether and was caught by the harness (e.g. the StopIteration that ends
+                # a scheduler FORCE): the program did not finish normally
+                return dict(verdict=DISCARD, sig="raised-into-harness", log=log, steps=steps, faults=faults, hist=None)
             if d != base or not same_top:
                 delta = tuple(a - b for a, b in zip(d, base))
                 names = ("cv", "in", "st", "fs")
@@ -140,6 +170,8 @@ class C12(core.Check):
                     # an exception left a lambda / function body and was then swallowed (e.g. by list()'s
                     # length-hint protocol): a different mechanism from a template that forgets its pops
                     sig = f"depth:{which}:swallowed-exception:by={swallowed_by[0] or 'C-level'}"
+                    if swallowed_by[0]:
+                        sig += f":via={via[0] or '-'}"
                 else:
                     sig = f"depth:{which}:{where}:{','.join(exits) or '-'}" + (":printed-lazy" if printed_lazy[0] else "")
                 log.append(dict(violation=sig, depths=list(d), base=list(base)))
@@ -169,6 +201,8 @@ class C12(core.Check):
                 swallowed[0] += world.CLOCK.unwinds
                 if world.CLOCK.unwinds and swallowed_by[0] is None:
                     swallowed_by[0] = world.CLOCK.swallowed_by
+                    vs_ = [q for q in world.CLOCK.via if q not in ("safe_apply",)]
+                    via[0] = vs_[0] if vs_ else None
 
         def do_sched(upto):
             while sched and sched[0][0] <= upto:
@@ -258,6 +292,11 @@ class C12(core.Check):
                 created.append(self)
 
         w = world.World(inputs=[])  # resets the seams; its own ctx is unused
+        fault = case.get("fault")
+        if fault:
+            FAULTS.arm(fault["target"], fault["at"], fault["exc"])
+        else:
+            FAULTS.disarm()
         exits = progs.exits_of(case["nodes"])
         for e in exits:
             cov.add("exit:" + e)
@@ -283,6 +322,8 @@ class C12(core.Check):
             steps = world.CLOCK.stop()
             unw = world.CLOCK.unwinds
             unw_by = world.CLOCK.swallowed_by
+            vs_ = [q for q in world.CLOCK.via if q not in ("safe_apply",)]
+            unw_via = vs_[0] if vs_ else None
             sys.stdout = old_out
             main.Context = old_ctx
         log.append(dict(ev="execute_vyxal", outcome=outcome or "ok"))
@@ -296,7 +337,7 @@ class C12(core.Check):
             delta = tuple(a - b for a, b in zip(d, base))
             names = ("cv", "in", "st", "fs")
             which = "".join(("+" if x > 0 else "-") + nm for x, nm in zip(delta, names) if x) or "top-context"
-            sig = f"depth:{which}:main:{','.join(exits) or '-'}" if not unw else f"depth:{which}:swallowed-exception:by={unw_by or 'C-level'}"
+            sig = f"depth:{which}:main:{','.join(exits) or '-'}" if not unw else (f"depth:{which}:swallowed-exception:by={unw_by or 'C-level'}" + (f":via={unw_via or '-'}" if unw_by else ""))
             return dict(verdict=VIOLATION, sig=sig, detail=f"program={text!r} via execute_vyxal: depths {d} != {base}",
                         log=log, steps=steps, cov=sorted(cov), hist=self.hist(case, text))
         return dict(verdict=OK, sig="", log=log, steps=steps, cov=sorted(cov), hist=self.hist(case, text),
@@ -314,6 +355,12 @@ class C12(core.Check):
             yield dict(case, inputs=[])
         if case.get("final_output", True):
             yield dict(case, final_output=False)
+        if case.get("fault"):
+            c = dict(case)
+            del c["fault"]
+            yield c
+            if case["fault"]["at"] > 1:
+                yield dict(case, fault=dict(case["fault"], at=case["fault"]["at"] - 1))
 
     def sig_class(self, sig):
         return ":".join(sig.split(":")[:3])
